@@ -33,7 +33,8 @@ VARIABLES prog,       \* prog[p]: calls still to make
           peer,       \* items the peer will still send (script)
           avail,      \* how many of them have been delivered to the transport already
           failArmed,  \* the transport will fail the write of the closing tag (once)
-          dl,         \* the close deadline: "none", "armed" (SetCloseDeadline called), "passed"
+          dl,         \* the close deadline: "none", "armed" (SetCloseDeadline called), "rearmed" (called again with a
+                      \* LATER time: the earlier, replaced deadline has not gone by yet), "passed"
           broken,     \* a transmit failed in the transport (expired context): the encoder keeps the error
           sv          \* serve process state: [phase, reason, pending]
 
@@ -210,7 +211,15 @@ DeadlineSet ==
   /\ dl = "none" /\ dl' = "armed"
   /\ UNCHANGED <<prog, cur, lock, outClosed, inClosed, wire, rets, peer, avail, failArmed, broken, sv>>
 Deadline ==
-  /\ dl # "passed" /\ dl' = "passed"
+  /\ dl \in {"none", "armed"} /\ dl' = "passed"
+  /\ UNCHANGED <<prog, cur, lock, outClosed, inClosed, wire, rets, peer, avail, failArmed, broken, sv>>
+(* SetCloseDeadline once more, with a later time: THE close deadline is the one set last.  The time it replaced *)
+(* goes by first (an event of its own) and is nobody's deadline any more: nothing happens.                     *)
+DeadlineReset ==
+  /\ dl = "armed" /\ dl' = "rearmed"
+  /\ UNCHANGED <<prog, cur, lock, outClosed, inClosed, wire, rets, peer, avail, failArmed, broken, sv>>
+OldDeadlineGoesBy ==
+  /\ dl = "rearmed" /\ dl' = (IF "ReplacedDeadlineFires" \in Dev THEN "passed" ELSE "armed")
   /\ UNCHANGED <<prog, cur, lock, outClosed, inClosed, wire, rets, peer, avail, failArmed, broken, sv>>
 
 ServeDeadline(p) ==
@@ -245,7 +254,7 @@ ServeRet(p, class) ==
 
 -----------------------------------------------------------------------------
 Next ==
-  \/ PeerFeed \/ Deadline \/ DeadlineSet
+  \/ PeerFeed \/ Deadline \/ DeadlineSet \/ DeadlineReset \/ OldDeadlineGoesBy
   \/ \E p \in Procs :
       \/ Begin(p) \/ Ret(p) \/ Acquire(p) \/ TxRefuse(p) \/ TxWrite(p) \/ TxDone(p) \/ TxcFail(p) \/ TxBroken(p)
       \/ CloseWrite(p) \/ CloseWriteFail(p) \/ ErrWrite(p) \/ CloseDone(p) \/ CloseInput(p) \/ Rx(p)
@@ -269,7 +278,9 @@ C10_SendersRefused ==
      rets[p][i].k \in TxKinds =>
         (rets[p][i].class \in {"nil", "closed"} \/ (rets[p][i].class = "other" /\ broken))  \* "other" only after a transport failure
 (* the close deadline, once set, is disarmed by nobody and stays passed once it has passed *)
-C10_DeadlineKept == [][(dl = "armed" => dl' \in {"armed", "passed"}) /\ (dl = "passed" => dl' = "passed")]_vars
+C10_DeadlineKept == [][(dl \in {"armed", "rearmed"} => dl' \in {"armed", "rearmed", "passed"}) /\ (dl = "passed" => dl' = "passed")]_vars
+(* ... and a time that was replaced by a later deadline is no deadline: its going by changes nothing *)
+C10_ReplacedDeadlineInert == [][dl = "rearmed" => dl' \in {"rearmed", "armed"}]_vars
 C10_BothClosedAfterServe == sv.phase = "done" => outClosed /\ inClosed
 C10_ReadsRefused ==
   \A p \in Procs : \A i \in 1..Len(rets[p]) :
